@@ -154,12 +154,20 @@ def run_tlc(module, cfg, wd, workers=None, env=None, timeout=3600, heap="6g", co
 
 # ------------------------------------------------------------------ findings
 def load_findings():
-    path = os.path.join(VERIF, "known_findings.json")
-    if not os.path.exists(path):
-        return []
-    with open(path) as fh:
-        data = json.load(fh)
-    return data.get("findings", [])
+    """known_findings.json plus known_findings.d/*.json (one file per engine); committed, never
+    written at run time."""
+    out = []
+    paths = [os.path.join(VERIF, "known_findings.json")]
+    d = os.path.join(VERIF, "known_findings.d")
+    if os.path.isdir(d):
+        paths += sorted(os.path.join(d, f) for f in os.listdir(d) if f.endswith(".json"))
+    for path in paths:
+        if not os.path.exists(path):
+            continue
+        with open(path) as fh:
+            data = json.load(fh)
+        out.extend(data.get("findings", []))
+    return out
 
 
 def match_finding(findings, prop, verdict):
@@ -216,6 +224,7 @@ class Report:
                          "events_validated": 0, "samples": [], "checker_cmd": "", "exhaustive": False}
         self.assumptions = []
         self.notes = []
+        self.cleanup = []       # work directories removed at the end (VERIF_KEEP_WORK=1 keeps them)
 
     def add_design(self, res):
         self.coverage["states"] += res["distinct"]
@@ -271,6 +280,9 @@ class Report:
         if os.environ.get("VERIF_DUMP_VERDICTS"):
             with open(os.environ["VERIF_DUMP_VERDICTS"], "w") as fh:
                 json.dump(self.all_verdicts, fh, default=str)
+        if not os.environ.get("VERIF_KEEP_WORK"):
+            for d in self.cleanup:
+                shutil.rmtree(d, ignore_errors=True)
         status = "VIOLATED" if self.violations else "held"
         print("%s %s tier=%s seed=%d: design states=%d transitions=%d, impl traces=%d events=%d, wall=%.1fs"
               % (self.prop, status, self.tier, seed(), cov["states"], cov["transitions"],
